@@ -87,6 +87,9 @@ def check_pair(ctx, su: Setup, a: int, b: int):
     tag = f"{Q}.cell_to_children(res {a} -> {b})"
     rets, raises = children_family(interp, c, Lin(b))
     for o in raises:
+        if any(type(at).__name__ == "Opaque" for c, t, _ in o.state.path for at in (c.left - c.right).atoms()):
+            ctx.unk("C06.0", f"{tag}: may raise {_exc(o.value)}", core.loc(SER, o.node), f"on a path whose condition is not decided: [{describe_path(o.state)[:200]}]")
+            continue
         su.raising.setdefault((b, _exc(o.value)), []).append((a, core.loc(SER, o.node), describe_path(o.state)))
     if len(rets) != 1 or not isinstance(rets[0].value, ListV) or rets[0].value.unknown:
         if rets:
